@@ -434,17 +434,24 @@ def flat_parent(i, spec, par):
     return a
 
 
-def g04_break_reached(case, d, upto):
-    """trigger of C03-K1 / C04-K1 (pre-finding F46): ids of leaves directly inside a transparent DoDoer whose flattened parent is the
-    Doist or a DoDoer with tock > 0, that in run d performed a positive yield AFTER an asap yield at a tyme <= upto"""
+def g04_break_reached(case, d, upto, any_tock0_parent=False):
+    """trigger of C04-K1 (pre-finding F46): ids of leaves directly inside a transparent DoDoer whose flattened parent is the
+    Doist or a DoDoer with tock > 0, that in run d performed a positive yield AFTER an asap yield at a tyme <= upto.
+    any_tock0_parent=True is the trigger of C03-K1: the leaf sits directly inside ANY DoDoer with tock 0 (always or not)"""
     spec, par, pools, kids = S.spec_index(case)
     hit = []
     for i, s in spec.items():
-        if s[0] != "leaf" or par[i] == 0 or not transparent(spec[par[i]]):
+        if s[0] != "leaf" or par[i] == 0:
             continue
-        fp = flat_parent(i, spec, par)
-        if fp != 0 and spec[fp][2] == 0:
-            continue          # flattened parent is itself a tock-0 DoDoer: same asap rule on both sides
+        if any_tock0_parent:
+            if spec[par[i]][2] != 0:
+                continue
+        else:
+            if not transparent(spec[par[i]]):
+                continue
+            fp = flat_parent(i, spec, par)
+            if fp != 0 and spec[fp][2] == 0:
+                continue          # flattened parent is itself a tock-0 DoDoer: same asap rule on both sides
         n = breaks_g04(s)
         if n is None:
             continue
@@ -536,7 +543,7 @@ TIMING_CORPUS = [
     # same, None instead of 0.0, generator-recur shape, two levels of nesting, non-dyadic tock, start != 0
     ("run", 0.1, 0.3, None, [], [_grp(9, [_grp(8, [_lf(1, [None, 0.25, None], "genrecur")]), _lf(3, [0.3, 0.3])]), _lf(2, [0.0] * 5, "plain")]),
     # G04-conforming nested program (positive* asap*): transparent
-    ("run", 0.25, 1.0, None, [], [_grp(9, [_lf(1, [0.5, 0.3, 0.0, None], "bound"), _grp(8, []), _lf(3, [1.0], "plain", ret=(False,))]), _lf(2, [0.1, 0.1, 0.1])]),
+    ("run", 0.25, 1.0, None, [], [_grp(9, [_lf(1, [0.5, 0.3, 0.0, None], "bound"), _grp(8, []), _lf(3, [1.0], "genrecur", ret=(False,))]), _lf(2, [0.1, 0.1, 0.1])]),
     # limit that is not a multiple of the tock, forced exits of nested doers
     ("run", 0.3, 2.5, 1.0, [], [_lf(1, [0.0] * 9), _grp(9, [_lf(2, [0.7] * 5), _grp(8, [_lf(3, [0.0] * 9, "doize")])]), _lf(4, [2.0] * 3, "plain")]),
     # only empty groups / empty program body
